@@ -26,6 +26,53 @@ use std::path::{Path, PathBuf};
 #[path = "locks_dyn.rs"]
 mod dynamic;
 
+pub const NS: &str = "xmlns=\"http://www.w3.org/2005/07/scxml\" version=\"1.0\"";
+
+/// a session that talks to a peer session: `peer` (set the peer), `go` (send now), `later`
+/// (delayed send, with or without id), `ping` (answer to the origin), `cancel`, `stop`
+pub fn peer_doc(dm: &str) -> String {
+    format!(
+        "<scxml {NS} datamodel=\"{dm}\" initial=\"idle\">\
+         <datamodel><data id=\"peer\" expr=\"0\"/><data id=\"n\" expr=\"0\"/></datamodel>\
+         <state id=\"idle\">\
+          <transition event=\"peer\"><assign location=\"peer\" expr=\"_event.data.id\"/></transition>\
+          <transition event=\"go\"><send event=\"ping\" targetexpr=\"'#_scxml_' + peer\"/></transition>\
+          <transition event=\"later\"><send event=\"ping\" delay=\"2ms\" targetexpr=\"'#_scxml_' + peer\"/>\
+             <send id=\"d1\" event=\"ping\" delay=\"4ms\" targetexpr=\"'#_scxml_' + peer\"/></transition>\
+          <transition event=\"self\"><send event=\"pong\" delay=\"1ms\"/><send event=\"pong\"/></transition>\
+          <transition event=\"cancel\"><cancel sendid=\"d1\"/></transition>\
+          <transition event=\"ping\"><send event=\"pong\" targetexpr=\"_event.origin\"/></transition>\
+          <transition event=\"pong\"><assign location=\"n\" expr=\"n + 1\"/></transition>\
+          <transition event=\"stop\" target=\"end\"/>\
+         </state><final id=\"end\"/></scxml>"
+    )
+}
+
+/// a session that invokes a child (inline content) on every entry of `s1`, with a delayed send of
+/// its own pending; the child talks to `#_parent`, the parent to `#_kid`
+pub fn invoker_doc(dm: &str, delay_ms: u32, with_id: bool) -> String {
+    let id = if with_id { " id=\"t1\"" } else { "" };
+    format!(
+        "<scxml {NS} datamodel=\"{dm}\" initial=\"s0\">\
+         <state id=\"s0\"><transition event=\"go\" target=\"s1\"/><transition event=\"stop\" target=\"end\"/></state>\
+         <state id=\"s1\">\
+          <onentry><send{id} event=\"tick\" delay=\"{delay_ms}ms\"/></onentry>\
+          <invoke id=\"kid\"><content>\
+           <scxml {NS} datamodel=\"{dm}\" initial=\"c1\">\
+            <state id=\"c1\"><onentry><send target=\"#_parent\" event=\"hello\"/><send event=\"ctick\" delay=\"1ms\"/></onentry>\
+             <transition event=\"bye\" target=\"cend\"/></state><final id=\"cend\"/></scxml>\
+          </content></invoke>\
+          <transition event=\"hello\"><send target=\"#_kid\" event=\"bye\"/></transition>\
+          <transition event=\"done.invoke.kid\" target=\"s2\"/>\
+          <transition event=\"abort\" target=\"s2\"/>\
+          <transition event=\"stop\" target=\"end\"/>\
+         </state>\
+         <state id=\"s2\"><transition event=\"go\" target=\"s1\"/><transition event=\"stop\" target=\"end\"/></state>\
+         <final id=\"end\"/></scxml>"
+    )
+}
+
+
 pub struct Site {
     pub id: u64,
     pub key: String,
@@ -255,6 +302,74 @@ fn static_part(args: &Args, model: &mut Model, rep: &mut Report) -> Option<Table
     Some(table)
 }
 
+
+/// Without the instrumented mutex: a sequential two-session ping/pong and an invoke round trip on
+/// one executor, each step on a watched thread.  It cannot attribute a hang to locks, but a change
+/// that makes the platform block on every start / send / invoke is still seen (`C17:hang:smoke`).
+/// The steps never overlap a session start with a send, so the known cycles cannot bite here.
+#[cfg(not(feature = "hooks"))]
+fn smoke(rep: &mut Report) {
+    use rufsm::actions::ActionWrapper;
+    use rufsm::datamodel::Data;
+    use rufsm::fsm::{self, Event, FinishMode, ParamPair, EVENT_CANCEL_SESSION};
+    use rufsm::fsm_executor::FsmExecutor;
+    use std::sync::mpsc::channel;
+    use std::time::Duration;
+    for dm in ["rfsm-expression", "ecmascript"] {
+        rep.evaluations += 1;
+        let (tx, rx) = channel::<Result<(), String>>();
+        let _ = std::thread::Builder::new().name("c17-smoke".into()).spawn(move || {
+            let r = (|| -> Result<(), String> {
+                let executor = FsmExecutor::new_without_io_processor();
+                let actions = ActionWrapper::new();
+                let start = |xml: String| -> Result<fsm::ScxmlSession, String> {
+                    let f = rufsm::scxml_reader::parse_from_xml(xml)?;
+                    Ok(fsm::start_fsm_with_data_and_finish_mode(f, actions.get_copy(), Box::new(executor.clone()), &[], FinishMode::DISPOSE))
+                };
+                let ev = |n: &str| Box::new(Event::new_simple(n));
+                let peer = |id: u32| {
+                    let mut e = Event::new_simple("peer");
+                    e.param_values = Some(vec![ParamPair::new("id", &Data::Integer(id as i64))]);
+                    Box::new(e)
+                };
+                let mut a = start(peer_doc(dm))?;
+                let mut b = start(peer_doc(dm))?;
+                let _ = a.sender.send(peer(b.session_id));
+                let _ = b.sender.send(peer(a.session_id));
+                for n in ["go", "self", "go"] {
+                    let _ = a.sender.send(ev(n));
+                    std::thread::sleep(Duration::from_millis(10));
+                }
+                for s in [&mut a, &mut b] {
+                    let _ = s.sender.send(ev("stop"));
+                    let _ = s.sender.send(ev(EVENT_CANCEL_SESSION));
+                    if let Some(t) = s.thread.take() {
+                        let _ = t.join();
+                    }
+                }
+                let mut p = start(invoker_doc(dm, 1, true))?;
+                let _ = p.sender.send(ev("go"));
+                std::thread::sleep(Duration::from_millis(40));
+                let _ = p.sender.send(ev("stop"));
+                let _ = p.sender.send(ev(EVENT_CANCEL_SESSION));
+                if let Some(t) = p.thread.take() {
+                    let _ = t.join();
+                }
+                Ok(())
+            })();
+            let _ = tx.send(r);
+        });
+        match rx.recv_timeout(Duration::from_secs(20)) {
+            Ok(Ok(())) => rep.count("smoke_finished"),
+            Ok(Err(e)) => rep.disagree(json!({"what": "smoke document rejected by the reader", "datamodel": dm, "error": e})),
+            Err(_) => rep.oracle_fail(
+                "C17:hang:smoke",
+                json!({"kind": "sequential ping/pong + invoke round trip did not finish within 20 s (uninstrumented build: no wait-for graph)", "datamodel": dm, "replay": {"smoke": dm}}),
+            ),
+        }
+    }
+}
+
 pub fn run(args: &Args, model: &mut Model) -> Report {
     let mut rep = Report::new(
         "c17",
@@ -285,6 +400,7 @@ pub fn run(args: &Args, model: &mut Model) -> Report {
     #[cfg(not(feature = "hooks"))]
     {
         let _ = table;
+        smoke(&mut rep);
         rep.count("dynamic_part_skipped");
         rep.extra.insert(
             "dynamic".into(),
